@@ -207,6 +207,12 @@ where
                                 }
                             }
 
+                            // Stop once the market was closed (timeout expired, or another worker
+                            // finished or panicked) even while this worker still has work of its own.
+                            if !job_broker.is_open() {
+                                return;
+                            }
+
                             // Step 2: Share work.
                             if pending.len() > 1 && thread_count > 1 {
                                 job_broker.split_and_push(&mut pending);
